@@ -210,7 +210,15 @@ func (configgen *ConfigGeneratorImpl) buildGatewayListeners(builder *ListenerBui
 	cs := builder.connectionSettings
 
 	listeners := make([]*listener.Listener, 0)
-	for _, ml := range mutableopts {
+	// Emit the listeners in name order rather than in map iteration order, so that two generations from the
+	// same state give the same response.
+	listenerNames := make([]string, 0, len(mutableopts))
+	for name := range mutableopts {
+		listenerNames = append(listenerNames, name)
+	}
+	sort.Strings(listenerNames)
+	for _, name := range listenerNames {
+		ml := mutableopts[name]
 		ml.mutable.Listener = buildGatewayListener(*ml.opts, ml.transport)
 
 		// Set listener-level buffer limit from ConnectionSettings.
